@@ -56,6 +56,7 @@ pub fn noise(sel: u64) {
             zero: false,
             width: if sel & 2 == 2 { Some(12) } else { None },
             precision: Some(pick(31 + round, 4)),
+            alt: false,
         };
         let _ = catch(|| (t.display)((a, u), &spec));
         let _ = catch(|| (t.to_string)((b, u)));
